@@ -1,13 +1,1190 @@
 //go:build verif
 
-// placeholder: harness c06 is being written
+// Harness c06 (property C06): hybrid encryption against the independent implementation.
+//
+// For every HPKE suite hybrid/hpke admits (7 KEMs x 3 KDFs x 3 AEADs) and the ECIES-AEAD-HKDF grid
+// hybrid/ecies admits (3 curves x 5 hashes x 3 point formats x 5 DEMs x salts), in every prefix
+// variant:
+//
+//	(a) tink-go encrypts           -> the Lean model must decrypt with the raw private key bytes,
+//	(b) the Lean model encrypts with an ephemeral scalar / DEM nonce chosen here (two-phase, hlib.Ask)
+//	                               -> tink-go must decrypt,
+//	(c) mutations of prefix / encapsulated key / payload / tag, cuts at every field boundary, a
+//	    different valid encapsulation, the negated point, another private key with the same
+//	    parameters and id, changed / dropped / extended context info
+//	                               -> both must reject; an acceptance by tink-go is an oracle violation.
+//
+// For ML-KEM (and the ML-KEM half of X-Wing) the shared secret is computed with crypto/mlkem and
+// handed to the model on the line (aux).
 package main
 
-import "github.com/tink-crypto/tink-go/v2/internal/verifharness/hlib"
+import (
+	"bytes"
+	"crypto/ecdh"
+	"crypto/elliptic"
+	"crypto/mlkem"
+	"crypto/rand"
+	"crypto/sha3"
+	"errors"
+	"fmt"
+	"math/big"
+	"strings"
+
+	"github.com/tink-crypto/tink-go/v2/aead/aesctrhmac"
+	"github.com/tink-crypto/tink-go/v2/aead/aesgcm"
+	"github.com/tink-crypto/tink-go/v2/aead/xchacha20poly1305"
+	"github.com/tink-crypto/tink-go/v2/daead/aessiv"
+	"github.com/tink-crypto/tink-go/v2/hybrid"
+	"github.com/tink-crypto/tink-go/v2/hybrid/ecies"
+	"github.com/tink-crypto/tink-go/v2/hybrid/hpke"
+	hsubtle "github.com/tink-crypto/tink-go/v2/hybrid/subtle"
+	"github.com/tink-crypto/tink-go/v2/insecurecleartextkeyset"
+	"github.com/tink-crypto/tink-go/v2/insecuresecretdataaccess"
+	"github.com/tink-crypto/tink-go/v2/internal/internalapi"
+	"github.com/tink-crypto/tink-go/v2/internal/verifharness/hlib"
+	"github.com/tink-crypto/tink-go/v2/key"
+	"github.com/tink-crypto/tink-go/v2/keyset"
+	"github.com/tink-crypto/tink-go/v2/tink"
+)
+
+// ---------------------------------------------------------------- deterministic crypto/rand
+
+// detTape replaces crypto/rand.Reader. The bytes of a Read depend only on (seed, epoch, length of
+// the read, how many reads of that length happened in the epoch), so the 0-or-1 byte the standard
+// library draws at random (randutil.MaybeReadByte) cannot shift anything else: ephemeral DH keys,
+// DEM nonces, generated keys and key ids are functions of the seed. (crypto/mlkem encapsulation uses
+// the runtime DRBG and stays random: ML-KEM / X-Wing ciphertexts differ between runs.)
+type detTape struct {
+	seed   uint64
+	epoch  uint64
+	counts map[int]int
+}
+
+func (t *detTape) Read(p []byte) (int, error) {
+	idx := t.counts[len(p)]
+	t.counts[len(p)] = idx + 1
+	r := hlib.NewRng(t.seed, fmt.Sprintf("c06tape/%d/%d/%d", t.epoch, len(p), idx))
+	copy(p, r.Bytes(len(p)))
+	return len(p), nil
+}
+
+func (t *detTape) next() {
+	t.epoch++
+	t.counts = map[int]int{}
+}
+
+var tape *detTape
+
+// ---------------------------------------------------------------- curves
+
+type curveInfo struct {
+	name string // model token
+	ell  elliptic.Curve
+	dh   ecdh.Curve
+	bl   int // coordinate / scalar length in bytes
+}
+
+var curves = []*curveInfo{
+	{"P256", elliptic.P256(), ecdh.P256(), 32},
+	{"P384", elliptic.P384(), ecdh.P384(), 48},
+	{"P521", elliptic.P521(), ecdh.P521(), 66},
+}
+
+// scalar returns a valid private scalar (big-endian, exactly bl bytes, in [1, n-1]) with the edge
+// values mixed in; the kind is returned for the statistics.
+func scalar(rng *hlib.Rng, c *curveInfo) ([]byte, string) {
+	n := c.ell.Params().N
+	for {
+		b := make([]byte, c.bl)
+		kind := "random"
+		switch rng.Intn(16) {
+		case 0:
+			b[c.bl-1] = 1
+			kind = "one"
+		case 1:
+			new(big.Int).Sub(n, big.NewInt(1)).FillBytes(b)
+			kind = "n-1"
+		case 2:
+			copy(b, rng.Bytes(c.bl))
+			b[0] = 0
+			if c.bl == 66 {
+				b[1] = 0
+			}
+			kind = "leading-zero"
+		case 3:
+			copy(b[c.bl-2:], rng.Bytes(2))
+			kind = "small"
+		default:
+			copy(b, rng.Bytes(c.bl))
+			if c.bl == 66 {
+				b[0] &= 1
+			}
+		}
+		if _, err := c.dh.NewPrivateKey(b); err == nil {
+			return b, kind
+		}
+	}
+}
+
+// negScalar returns n-d.
+func negScalar(c *curveInfo, d []byte) []byte {
+	out := make([]byte, c.bl)
+	new(big.Int).Sub(c.ell.Params().N, new(big.Int).SetBytes(d)).FillBytes(out)
+	return out
+}
+
+// pubOf returns the uncompressed public point 04 || x || y of a private scalar.
+func pubOf(c *curveInfo, d []byte) []byte {
+	k, err := c.dh.NewPrivateKey(d)
+	if err != nil {
+		panic(err)
+	}
+	return k.PublicKey().Bytes()
+}
+
+// negate returns the uncompressed encoding of -P.
+func negate(c *curveInfo, unc []byte) []byte {
+	out := append([]byte(nil), unc...)
+	y := new(big.Int).SetBytes(unc[1+c.bl:])
+	y.Sub(c.ell.Params().P, y)
+	y.FillBytes(out[1+c.bl:])
+	return out
+}
+
+// encodePoint re-encodes an uncompressed point in the ECIES point format U / C / L.
+func encodePoint(c *curveInfo, f string, unc []byte) []byte {
+	switch f {
+	case "C":
+		out := make([]byte, 1+c.bl)
+		out[0] = 2 + unc[len(unc)-1]&1
+		copy(out[1:], unc[1:1+c.bl])
+		return out
+	case "L":
+		return append([]byte(nil), unc[1:]...)
+	}
+	return append([]byte(nil), unc...)
+}
+
+// decodeToUnc turns an encoded point of format f (produced by a genuine encryption) back into the
+// uncompressed encoding; only used to build the "negated point" mutation.
+func decodeToUnc(c *curveInfo, f string, e []byte) []byte {
+	switch f {
+	case "C":
+		pt, err := hsubtle.PointDecode(c.ell, "COMPRESSED", e)
+		if err != nil {
+			return nil
+		}
+		out := make([]byte, 1+2*c.bl)
+		out[0] = 4
+		pt.X.FillBytes(out[1 : 1+c.bl])
+		pt.Y.FillBytes(out[1+c.bl:])
+		return out
+	case "L":
+		return append([]byte{4}, e...)
+	}
+	return append([]byte(nil), e...)
+}
+
+// ---------------------------------------------------------------- generic round engine
+
+type scheme struct {
+	fam     string // "hpke" | "ecies"
+	label   string
+	costly  bool // NIST-curve DH on the model side
+	enc     tink.HybridEncrypt
+	dec     tink.HybridDecrypt
+	dec2    tink.HybridDecrypt // another private key, same parameters and id
+	decNeg  tink.HybridDecrypt // NIST curves: the private key n-d (public key -Q), same parameters and id
+	// negEquivalent: ECIES derives the key from the KEM bytes and the x coordinate of the DH point
+	// only, so d and n-d are the same decryption key (inherent to ECIES-KEM); HPKE binds pkR.
+	negEquivalent bool
+	preLen  int
+	hdrLen  int // encapsulated key / KEM header
+	ovh     int // payload overhead (nonce + tag)
+	bounds  func(ctLen int) []int
+	decLine func(who int, ct, info []byte) string // who: 0 the recipient, 1 the other key, 2 the key n-d
+	askLine func(rng *hlib.Rng, pt, info []byte) string
+	special func(rng *hlib.Rng, ct, pt, info []byte) []hlib.Mut
+}
+
+type env struct {
+	o       *hlib.Out
+	mutProb int // percentage of the mutation candidates that are run for costly schemes
+}
+
+func rej(b []byte, err error) string {
+	if err != nil {
+		return "reject"
+	}
+	return "ok " + hlib.Tok(b)
+}
+
+func pickInfo(rng *hlib.Rng) []byte {
+	switch rng.Intn(7) {
+	case 0:
+		return nil
+	case 1:
+		return []byte{}
+	case 2:
+		return rng.Bytes(1 + rng.Intn(16))
+	case 3, 4:
+		return rng.Bytes(100 + rng.Intn(200))
+	case 5:
+		if hlib.Thorough() && rng.Chance(10) {
+			return rng.Bytes(1000 + rng.Intn(4000))
+		}
+		return rng.Bytes(32)
+	}
+	return rng.Bytes(rng.MsgLen(300))
+}
+
+func infoKind(info []byte) string {
+	switch {
+	case info == nil:
+		return "nil"
+	case len(info) == 0:
+		return "empty"
+	case len(info) <= 16:
+		return "short"
+	case len(info) >= 100:
+		return "100+"
+	}
+	return "medium"
+}
+
+var errPre = errors.New("pre phase: not evaluated")
+
+// viol records an oracle violation (main phase only: the pre phase only collects the requests to
+// the model and does not evaluate decryptions).
+func (e *env) viol(format string, a ...any) {
+	if !hlib.Pre() {
+		e.o.Violate(format, a...)
+	}
+}
+
+func (e *env) decrypt(s *scheme, d tink.HybridDecrypt, what string, ct, info []byte) (pt []byte, err error, ok bool) {
+	if hlib.Pre() {
+		return nil, errPre, true
+	}
+	if p := hlib.Recover(func() { pt, err = d.Decrypt(ct, info) }); p != "" {
+		e.o.Violate("Decrypt panicked on a %s input (%s): %s ct=%s", what, s.label, p, hlib.Tok(ct))
+		return nil, nil, false
+	}
+	return pt, err, true
+}
+
+func (e *env) verdict(s *scheme, err error) {
+	if err != nil {
+		e.o.Count(s.fam + "/verdict/reject")
+	} else {
+		e.o.Count(s.fam + "/verdict/accept")
+	}
+}
+
+func (e *env) round(rng *hlib.Rng, s *scheme) {
+	o := e.o
+	pt := rng.Bytes(rng.MsgLen(300))
+	info := pickInfo(rng)
+	o.Count(s.fam + "/info/" + infoKind(info))
+	if len(pt) == 0 {
+		o.Count(s.fam + "/pt/empty")
+	}
+	// ---- (a) tink-go encrypts, the model decrypts
+	var ct []byte
+	var err error
+	if p := hlib.Recover(func() { ct, err = s.enc.Encrypt(pt, info) }); p != "" {
+		e.viol("Encrypt panicked (%s): %s", s.label, p)
+		return
+	}
+	if err != nil {
+		e.viol("Encrypt failed (%s): %v", s.label, err)
+		return
+	}
+	if len(ct) != s.preLen+s.hdrLen+s.ovh+len(pt) {
+		e.viol("ciphertext length %d is not prefix+enc+|pt|+overhead = %d (%s)", len(ct), s.preLen+s.hdrLen+s.ovh+len(pt), s.label)
+	}
+	back, derr, ok := e.decrypt(s, s.dec, "genuine", ct, info)
+	if !ok {
+		return
+	}
+	if derr != nil || !bytes.Equal(back, pt) {
+		e.viol("Decrypt(Encrypt(pt, info), info) != pt (%s, |pt|=%d |info|=%d): %v", s.label, len(pt), len(info), derr)
+	}
+	o.Count(s.fam + "/dir/go-enc>model-dec")
+	e.verdict(s, derr)
+	o.Emit("!"+s.decLine(0, ct, info), rej(back, derr), true)
+	if len(info) == 0 { // nil and empty context info are interchangeable
+		var other []byte
+		if info == nil {
+			other = []byte{}
+		}
+		if b2, e2, _ := e.decrypt(s, s.dec, "genuine", ct, other); e2 != nil || !bytes.Equal(b2, pt) {
+			e.viol("nil/empty context info are not interchangeable (%s)", s.label)
+		}
+	}
+	// ---- (b) the model encrypts with randomness chosen here, tink-go decrypts
+	if s.askLine != nil {
+		ans := hlib.Ask(s.askLine(rng, pt, info))
+		if !hlib.Pre() {
+			if !strings.HasPrefix(ans, "ok ") {
+				e.viol("the model could not encrypt (%s): %s", s.label, ans)
+			} else {
+				mct := hlib.FromTok(ans[3:])
+				b3, e3, ok := e.decrypt(s, s.dec, "model-made", mct, info)
+				if ok {
+					if e3 != nil || !bytes.Equal(b3, pt) {
+						e.viol("tink-go does not decrypt the independent implementation's ciphertext (%s |pt|=%d |info|=%d) ct=%s", s.label, len(pt), len(info), hlib.Tok(mct))
+					}
+					o.Count(s.fam + "/dir/model-enc>go-dec")
+					e.verdict(s, e3)
+					o.Emit("!"+s.decLine(0, mct, info), rej(b3, e3), true)
+				}
+			}
+		}
+	}
+	// ---- (c) nothing but the genuine (ciphertext, info, key) triple is accepted
+	muts := rng.Mutations(ct, 6)
+	bs := append([]int{0, s.preLen, s.preLen + s.hdrLen - 1, s.preLen + s.hdrLen, len(ct) - 1}, s.bounds(len(ct))...)
+	seen := map[int]bool{}
+	for _, pos := range bs {
+		if pos < 0 || pos >= len(ct) || seen[pos] {
+			continue
+		}
+		seen[pos] = true
+		m := append([]byte(nil), ct...)
+		m[pos] ^= 1 << uint(rng.Intn(8))
+		muts = append(muts, hlib.Mut{Kind: "flip-boundary", Data: m})
+		muts = append(muts, hlib.Mut{Kind: "cut-boundary", Data: append([]byte(nil), ct[:pos]...)})
+	}
+	if s.preLen == 5 {
+		m := append([]byte(nil), ct...)
+		m[0] ^= 1 // the other variant's start byte
+		muts = append(muts, hlib.Mut{Kind: "other-variant", Data: m})
+		m = append([]byte(nil), ct...)
+		m[1+rng.Intn(4)] ^= 1 << uint(rng.Intn(8))
+		muts = append(muts, hlib.Mut{Kind: "other-key-id", Data: m})
+		muts = append(muts, hlib.Mut{Kind: "raw-of-prefixed", Data: append([]byte(nil), ct[5:]...)})
+	} else {
+		muts = append(muts, hlib.Mut{Kind: "prefixed-of-raw", Data: append([]byte{byte(rng.Intn(2)), 0, 0, 0, byte(rng.Intn(2))}, ct...)})
+	}
+	muts = append(muts, s.special(rng, ct, pt, info)...)
+	for _, mu := range muts {
+		if s.costly && !rng.Chance(e.mutProb) {
+			continue
+		}
+		b, er, ok := e.decrypt(s, s.dec, mu.Kind, mu.Data, info)
+		if !ok {
+			continue
+		}
+		o.Count("mut/" + s.fam + "/" + mu.Kind)
+		e.verdict(s, er)
+		if er == nil && !bytes.Equal(mu.Data, ct) {
+			e.viol("Decrypt accepted a %s-mutated ciphertext (%s) ct=%s", mu.Kind, s.label, hlib.Tok(mu.Data))
+		}
+		o.Emit(s.decLine(0, mu.Data, info), rej(b, er), true)
+	}
+	// another private key (same parameters, same id => same prefix)
+	if !s.costly || rng.Chance(e.mutProb+20) {
+		b, er, ok := e.decrypt(s, s.dec2, "other-private-key", ct, info)
+		if ok {
+			o.Count("mut/" + s.fam + "/other-private-key")
+			e.verdict(s, er)
+			if er == nil {
+				e.viol("another private key decrypts the ciphertext (%s)", s.label)
+			}
+			o.Emit(s.decLine(1, ct, info), rej(b, er), true)
+		}
+	}
+	// the private key n-d: -Q as public key, the same DH x coordinate
+	if s.decNeg != nil && (!s.costly || rng.Chance(e.mutProb+20)) {
+		b, er, ok := e.decrypt(s, s.decNeg, "negated-private-key", ct, info)
+		if ok {
+			o.Count("mut/" + s.fam + "/negated-private-key")
+			e.verdict(s, er)
+			switch {
+			case s.negEquivalent && !hlib.Pre():
+				if er == nil && bytes.Equal(b, pt) {
+					o.Count(s.fam + "/note/private-keys-d-and-n-d-are-equivalent")
+				}
+			case er == nil:
+				e.viol("the private key n-d decrypts the ciphertext (%s)", s.label)
+			}
+			o.Emit(s.decLine(2, ct, info), rej(b, er), true)
+		}
+	}
+	// context info
+	im := rng.Mutations(info, 2)
+	im = append(im, hlib.Mut{Kind: "info-dropped", Data: nil},
+		hlib.Mut{Kind: "info-extended", Data: append(append([]byte(nil), info...), byte(rng.Intn(2)))},
+		hlib.Mut{Kind: "info-other", Data: rng.Bytes(1 + rng.Intn(40))})
+	if len(info) > 0 {
+		im = append(im, hlib.Mut{Kind: "info-shortened", Data: append([]byte(nil), info[:len(info)-1]...)})
+	}
+	for _, mu := range im {
+		if s.costly && !rng.Chance(e.mutProb+20) {
+			continue
+		}
+		kind := mu.Kind
+		if !strings.HasPrefix(kind, "info-") {
+			kind = "info-" + kind
+		}
+		b, er, ok := e.decrypt(s, s.dec, kind, ct, mu.Data)
+		if !ok {
+			continue
+		}
+		o.Count("mut/" + s.fam + "/" + kind)
+		e.verdict(s, er)
+		if er == nil && !bytes.Equal(mu.Data, info) {
+			e.viol("Decrypt accepted changed context info (%s, %s) info=%s used=%s", kind, s.label, hlib.Tok(info), hlib.Tok(mu.Data))
+		}
+		o.Emit(s.decLine(0, ct, mu.Data), rej(b, er), true)
+	}
+}
+
+// ---------------------------------------------------------------- key plumbing shared by both families
+
+// parties builds the encrypting and the decrypting primitive for a private key along one of the
+// construction paths.
+func parties(path string, priv key.Key, perKey func() (tink.HybridEncrypt, tink.HybridDecrypt, error)) (tink.HybridEncrypt, tink.HybridDecrypt, error) {
+	switch path {
+	case "key":
+		return perKey()
+	case "keyset", "proto":
+		h, err := hlib.HandleOf(priv)
+		if err != nil {
+			return nil, nil, err
+		}
+		if path == "proto" { // through the binary keyset serialization and back
+			var buf bytes.Buffer
+			if err := insecurecleartextkeyset.Write(h, keyset.NewBinaryWriter(&buf)); err != nil {
+				return nil, nil, fmt.Errorf("keyset write: %v", err)
+			}
+			if h, err = insecurecleartextkeyset.Read(keyset.NewBinaryReader(&buf)); err != nil {
+				return nil, nil, fmt.Errorf("keyset read: %v", err)
+			}
+		}
+		return fromHandle(h)
+	}
+	return nil, nil, fmt.Errorf("unknown path %s", path)
+}
+
+func fromHandle(h *keyset.Handle) (tink.HybridEncrypt, tink.HybridDecrypt, error) {
+	ph, err := h.Public()
+	if err != nil {
+		return nil, nil, err
+	}
+	enc, err := hybrid.NewHybridEncrypt(ph)
+	if err != nil {
+		return nil, nil, err
+	}
+	dec, err := hybrid.NewHybridDecrypt(h)
+	if err != nil {
+		return nil, nil, err
+	}
+	return enc, dec, nil
+}
+
+// generate lets the keyset manager create a fresh key from the parameters (createPrivateKey path).
+func generate(params key.Parameters) (*keyset.Handle, key.Key, error) {
+	km := keyset.NewManager()
+	id, err := km.AddNewKeyFromParameters(params)
+	if err != nil {
+		return nil, nil, err
+	}
+	if err := km.SetPrimary(id); err != nil {
+		return nil, nil, err
+	}
+	h, err := km.Handle()
+	if err != nil {
+		return nil, nil, err
+	}
+	e, err := h.Primary()
+	if err != nil {
+		return nil, nil, err
+	}
+	return h, e.Key(), nil
+}
+
+func pickPath(rng *hlib.Rng) string {
+	switch rng.Intn(10) {
+	case 0, 1, 2, 3:
+		return "keyset"
+	case 4, 5:
+		return "key"
+	case 6, 7:
+		return "proto"
+	}
+	return "generated"
+}
+
+var vcodes = []string{"T", "C", "R"}
+
+// ---------------------------------------------------------------- HPKE
+
+type kemInfo struct {
+	name  string
+	id    hpke.KEMID
+	nEnc  int
+	skLen int
+	curve *curveInfo // NIST KEMs
+}
+
+var kems = []kemInfo{
+	{"P256", hpke.DHKEM_P256_HKDF_SHA256, 65, 32, curves[0]},
+	{"P384", hpke.DHKEM_P384_HKDF_SHA384, 97, 48, curves[1]},
+	{"P521", hpke.DHKEM_P521_HKDF_SHA512, 133, 66, curves[2]},
+	{"X25519", hpke.DHKEM_X25519_HKDF_SHA256, 32, 32, nil},
+	{"XWING", hpke.X_WING, 1120, 32, nil},
+	{"MLKEM768", hpke.ML_KEM768, 1088, 64, nil},
+	{"MLKEM1024", hpke.ML_KEM1024, 1568, 64, nil},
+}
+
+var kdfs = []struct {
+	name string
+	id   hpke.KDFID
+}{{"SHA256", hpke.HKDFSHA256}, {"SHA384", hpke.HKDFSHA384}, {"SHA512", hpke.HKDFSHA512}}
+
+var haeads = []struct {
+	name string
+	id   hpke.AEADID
+}{{"AES128GCM", hpke.AES128GCM}, {"AES256GCM", hpke.AES256GCM}, {"CHACHA", hpke.ChaCha20Poly1305}}
+
+var hvariants = []hpke.Variant{hpke.VariantTink, hpke.VariantCrunchy, hpke.VariantNoPrefix}
+
+func (k *kemInfo) dhKEM() bool { return k.curve != nil || k.name == "X25519" }
+
+// genSK draws recipient private key bytes in the form tink stores them.
+func (k *kemInfo) genSK(rng *hlib.Rng) ([]byte, string) {
+	if k.curve != nil {
+		return scalar(rng, k.curve)
+	}
+	if k.name == "X25519" || k.name == "XWING" {
+		switch rng.Intn(20) {
+		case 0:
+			return make([]byte, 32), "zeros"
+		case 1:
+			return bytes.Repeat([]byte{0xff}, 32), "ones"
+		}
+	}
+	return rng.Bytes(k.skLen), "random"
+}
+
+// hpkeSecret is a recipient private key together with what the harness needs to tell the model.
+type hpkeSecret struct {
+	kem   *kemInfo
+	sk    []byte
+	pub   []byte
+	d768  *mlkem.DecapsulationKey768
+	d1024 *mlkem.DecapsulationKey1024
+	seedM []byte
+}
+
+func newHpkeSecret(k *kemInfo, priv *hpke.PrivateKey) (*hpkeSecret, error) {
+	pk, _ := priv.PublicKey()
+	s := &hpkeSecret{kem: k, sk: priv.PrivateKeyBytes().Data(insecuresecretdataaccess.Token{}), pub: pk.(*hpke.PublicKey).PublicKeyBytes()}
+	var err error
+	switch k.name {
+	case "MLKEM768":
+		s.d768, err = mlkem.NewDecapsulationKey768(s.sk)
+	case "MLKEM1024":
+		s.d1024, err = mlkem.NewDecapsulationKey1024(s.sk)
+	case "XWING":
+		// seedM = first 64 bytes of SHAKE256(sk, 96)
+		h := sha3.NewSHAKE256()
+		h.Write(s.sk)
+		s.seedM = make([]byte, 64)
+		h.Read(s.seedM)
+		s.d768, err = mlkem.NewDecapsulationKey768(s.seedM)
+	}
+	return s, err
+}
+
+// aux is the ML-KEM shared secret crypto/mlkem decapsulates from the encapsulated key the model
+// will look at ("~" for the DH KEMs). When the ciphertext is too short to hold an encapsulated key
+// the model rejects on the length before using it; a dummy value is passed then.
+func (s *hpkeSecret) aux(ct []byte, preLen int) string {
+	if s.kem.dhKEM() {
+		return "~"
+	}
+	if len(ct) < preLen+s.kem.nEnc {
+		return hlib.Tok(make([]byte, 32))
+	}
+	enc := ct[preLen : preLen+s.kem.nEnc]
+	var ss []byte
+	var err error
+	switch s.kem.name {
+	case "MLKEM768":
+		ss, err = s.d768.Decapsulate(enc)
+	case "MLKEM1024":
+		ss, err = s.d1024.Decapsulate(enc)
+	case "XWING":
+		ss, err = s.d768.Decapsulate(enc[:mlkem.CiphertextSize768])
+	}
+	if err != nil {
+		return "~"
+	}
+	return hlib.Tok(ss)
+}
+
+func runHPKE(e *env, rng *hlib.Rng, ki, di, ai, vi, rounds int) {
+	o := e.o
+	k := &kems[ki]
+	suite := fmt.Sprintf("%s %s %s", k.name, kdfs[di].name, haeads[ai].name)
+	params, err := hpke.NewParameters(hpke.ParametersOpts{KEMID: k.id, KDFID: kdfs[di].id, AEADID: haeads[ai].id, Variant: hvariants[vi]})
+	if err != nil {
+		o.Violate("hpke.NewParameters(%s) failed: %v", suite, err)
+		return
+	}
+	id := rng.KeyID()
+	if vi == 2 {
+		id = 0
+	}
+	path := pickPath(rng)
+	var priv *hpke.PrivateKey
+	var enc tink.HybridEncrypt
+	var dec tink.HybridDecrypt
+	perKey := func(p *hpke.PrivateKey) func() (tink.HybridEncrypt, tink.HybridDecrypt, error) {
+		return func() (tink.HybridEncrypt, tink.HybridDecrypt, error) {
+			pk, _ := p.PublicKey()
+			en, err := hpke.NewHybridEncrypt(pk.(*hpke.PublicKey), internalapi.Token{})
+			if err != nil {
+				return nil, nil, err
+			}
+			de, err := hpke.NewHybridDecrypt(p, internalapi.Token{})
+			return en, de, err
+		}
+	}
+	skKind := "generated"
+	if path == "generated" {
+		h, gk, err := generate(params)
+		if err != nil {
+			o.Violate("key generation from parameters failed (%s): %v", suite, err)
+			return
+		}
+		priv = gk.(*hpke.PrivateKey)
+		id, _ = priv.IDRequirement()
+		enc, dec, err = fromHandle(h)
+		if err != nil {
+			o.Violate("primitive construction failed (%s, %s): %v", suite, path, err)
+			return
+		}
+	} else {
+		var sk []byte
+		sk, skKind = k.genSK(rng)
+		priv, err = hpke.NewPrivateKey(hlib.Secret(sk), id, params)
+		if err != nil {
+			o.Violate("hpke.NewPrivateKey failed (%s): %v", suite, err)
+			return
+		}
+		enc, dec, err = parties(path, priv, perKey(priv))
+		if err != nil {
+			o.Violate("primitive construction failed (%s, %s): %v", suite, path, err)
+			return
+		}
+	}
+	sec, err := newHpkeSecret(k, priv)
+	if err != nil {
+		o.Violate("crypto/mlkem refuses the key (%s): %v", suite, err)
+		return
+	}
+	// the other recipient: same parameters and id, fresh key material
+	sk2, _ := k.genSK(rng)
+	for bytes.Equal(sk2, sec.sk) {
+		sk2 = rng.Bytes(k.skLen)
+		if k.curve != nil {
+			sk2, _ = scalar(rng, k.curve)
+		}
+	}
+	priv2, err := hpke.NewPrivateKey(hlib.Secret(sk2), id, params)
+	if err != nil {
+		o.Violate("hpke.NewPrivateKey failed (%s): %v", suite, err)
+		return
+	}
+	enc2, dec2, err := perKey(priv2)()
+	if err != nil {
+		o.Violate("primitive construction failed (%s, other key): %v", suite, err)
+		return
+	}
+	sec2, err := newHpkeSecret(k, priv2)
+	if err != nil {
+		o.Violate("crypto/mlkem refuses the key (%s): %v", suite, err)
+		return
+	}
+	var decNeg tink.HybridDecrypt
+	var secNeg *hpkeSecret
+	if k.curve != nil {
+		privNeg, err := hpke.NewPrivateKey(hlib.Secret(negScalar(k.curve, sec.sk)), id, params)
+		if err != nil {
+			o.Violate("hpke.NewPrivateKey failed (%s, n-d): %v", suite, err)
+			return
+		}
+		if _, decNeg, err = perKey(privNeg)(); err != nil {
+			o.Violate("primitive construction failed (%s, n-d): %v", suite, err)
+			return
+		}
+		secNeg, _ = newHpkeSecret(k, privNeg)
+	}
+	o.Count("hpke/kem/" + k.name)
+	o.Count("hpke/kdf/" + kdfs[di].name)
+	o.Count("hpke/aead/" + haeads[ai].name)
+	o.Count("hpke/variant/" + vcodes[vi])
+	o.Count("hpke/path/" + path)
+	o.Count("hpke/sk/" + skKind)
+	preLen := 5
+	if vi == 2 {
+		preLen = 0
+	}
+	if k.name == "XWING" {
+		// the key expansion (SHAKE256) and the X25519 half of the public key, cross-checked
+		o.Emit("!H xwingpub "+hlib.Tok(sec.sk), hlib.Tok(sec.seedM)+" "+hlib.Tok(sec.pub[mlkem.EncapsulationKeySize768:]), true)
+	}
+	cfg := fmt.Sprintf("%s %s %d", suite, vcodes[vi], id)
+	s := &scheme{fam: "hpke", label: "HPKE " + cfg + " via " + path, costly: k.curve != nil, enc: enc, dec: dec, dec2: dec2, decNeg: decNeg,
+		preLen: preLen, hdrLen: k.nEnc, ovh: 16,
+		bounds: func(n int) []int { return []int{n - 16, n - 17} },
+		decLine: func(who int, ct, info []byte) string {
+			x := sec
+			if who == 1 {
+				x = sec2
+			} else if who == 2 {
+				x = secNeg
+			}
+			return fmt.Sprintf("H hpkedec %s %s %s %s %s", cfg, hlib.Tok(x.sk), hlib.Tok(ct), hlib.Tok(info), x.aux(ct, preLen))
+		},
+	}
+	if k.dhKEM() {
+		s.askLine = func(rng *hlib.Rng, pt, info []byte) string {
+			var eph []byte
+			if k.curve != nil {
+				eph, _ = scalar(rng, k.curve)
+			} else {
+				eph = rng.Bytes(32)
+			}
+			return fmt.Sprintf("H hpkeenc %s %s %s %s %s", cfg, hlib.Tok(sec.pub), hlib.Tok(eph), hlib.Tok(pt), hlib.Tok(info))
+		}
+	}
+	s.special = func(rng *hlib.Rng, ct, pt, info []byte) []hlib.Mut {
+		var ms []hlib.Mut
+		encOff := preLen
+		// a different, perfectly valid encapsulation for the same recipient in front of the payload
+		if ct2, err := enc.Encrypt(pt, info); err == nil && len(ct2) == len(ct) {
+			m := append([]byte(nil), ct...)
+			copy(m[encOff:encOff+k.nEnc], ct2[encOff:encOff+k.nEnc])
+			ms = append(ms, hlib.Mut{Kind: "enc-other-valid", Data: m})
+			m = append([]byte(nil), ct2...)
+			copy(m[encOff:encOff+k.nEnc], ct[encOff:encOff+k.nEnc])
+			ms = append(ms, hlib.Mut{Kind: "payload-other-valid", Data: m})
+		}
+		// a ciphertext made for the other recipient
+		if ct3, err := enc2.Encrypt(pt, info); err == nil {
+			ms = append(ms, hlib.Mut{Kind: "for-other-recipient", Data: ct3})
+		}
+		switch {
+		case k.curve != nil:
+			// -P has the same DH x coordinate; enc is bound through the KEM context
+			m := append([]byte(nil), ct...)
+			copy(m[encOff:], negate(k.curve, ct[encOff:encOff+k.nEnc]))
+			ms = append(ms, hlib.Mut{Kind: "enc-negated-point", Data: m})
+			m = append([]byte(nil), ct...)
+			m[encOff] = 2 + m[encOff+k.nEnc-1]&1 // compressed-format marker on an uncompressed point
+			ms = append(ms, hlib.Mut{Kind: "enc-format-byte", Data: m})
+			m = append([]byte(nil), ct...)
+			copy(m[encOff:], sec.pub) // the recipient's own public key as enc
+			ms = append(ms, hlib.Mut{Kind: "enc-is-recipient-key", Data: m})
+		case k.name == "X25519" || k.name == "XWING":
+			xo := encOff + k.nEnc - 32
+			m := append([]byte(nil), ct...)
+			m[xo+31] ^= 0x80 // X25519 ignores the top bit: same DH value, different enc
+			ms = append(ms, hlib.Mut{Kind: "enc-x25519-high-bit", Data: m})
+			m = append([]byte(nil), ct...)
+			copy(m[xo:xo+32], make([]byte, 32)) // low-order point: all-zero DH value
+			ms = append(ms, hlib.Mut{Kind: "enc-x25519-low-order", Data: m})
+			m = append([]byte(nil), ct...)
+			copy(m[xo:xo+32], append([]byte{1}, make([]byte, 31)...))
+			ms = append(ms, hlib.Mut{Kind: "enc-x25519-low-order", Data: m})
+		}
+		if !k.dhKEM() || k.name == "XWING" {
+			m := append([]byte(nil), ct...)
+			copy(m[encOff:], make([]byte, 1088)) // all-zero ML-KEM ciphertext: implicit rejection
+			ms = append(ms, hlib.Mut{Kind: "enc-mlkem-zero", Data: m})
+		}
+		return ms
+	}
+	for r := 0; r < rounds; r++ {
+		e.round(rng, s)
+	}
+}
+
+// ---------------------------------------------------------------- ECIES
+
+type demInfo struct {
+	name   string // statistics
+	model  string // model tokens
+	keyLen int
+	rndLen int // random field at the start of the DEM ciphertext (nonce / IV); SIV has none
+	tagLen int
+	headIV int // bytes in front of the body (nonce / IV / synthetic IV)
+	params func() key.Parameters
+}
+
+func must[T any](v T, err error) T {
+	if err != nil {
+		panic(err)
+	}
+	return v
+}
+
+var dems = []demInfo{
+	{"AES128-GCM", "gcm 16", 16, 12, 16, 12, func() key.Parameters {
+		return must(aesgcm.NewParameters(aesgcm.ParametersOpts{KeySizeInBytes: 16, IVSizeInBytes: 12, TagSizeInBytes: 16, Variant: aesgcm.VariantNoPrefix}))
+	}},
+	{"AES256-GCM", "gcm 32", 32, 12, 16, 12, func() key.Parameters {
+		return must(aesgcm.NewParameters(aesgcm.ParametersOpts{KeySizeInBytes: 32, IVSizeInBytes: 12, TagSizeInBytes: 16, Variant: aesgcm.VariantNoPrefix}))
+	}},
+	{"AES128-CTR-HMAC-SHA256", "ctrhmac 16 32 SHA256 16 16", 48, 16, 16, 16, func() key.Parameters {
+		return must(aesctrhmac.NewParameters(aesctrhmac.ParametersOpts{AESKeySizeInBytes: 16, HMACKeySizeInBytes: 32, IVSizeInBytes: 16,
+			HashType: aesctrhmac.SHA256, TagSizeInBytes: 16, Variant: aesctrhmac.VariantNoPrefix}))
+	}},
+	{"AES256-CTR-HMAC-SHA256", "ctrhmac 32 32 SHA256 16 32", 64, 16, 32, 16, func() key.Parameters {
+		return must(aesctrhmac.NewParameters(aesctrhmac.ParametersOpts{AESKeySizeInBytes: 32, HMACKeySizeInBytes: 32, IVSizeInBytes: 16,
+			HashType: aesctrhmac.SHA256, TagSizeInBytes: 32, Variant: aesctrhmac.VariantNoPrefix}))
+	}},
+	{"AES256-SIV", "siv", 64, 0, 0, 16, func() key.Parameters { return must(aessiv.NewParameters(64, aessiv.VariantNoPrefix)) }},
+}
+
+var ehashes = []struct {
+	name string
+	id   ecies.HashType
+}{{"SHA1", ecies.SHA1}, {"SHA224", ecies.SHA224}, {"SHA256", ecies.SHA256}, {"SHA384", ecies.SHA384}, {"SHA512", ecies.SHA512}}
+
+var efmts = []struct {
+	code   string
+	id     ecies.PointFormat
+	subtle string
+}{{"U", ecies.UncompressedPointFormat, "UNCOMPRESSED"}, {"C", ecies.CompressedPointFormat, "COMPRESSED"},
+	{"L", ecies.LegacyUncompressedPointFormat, "DO_NOT_USE_CRUNCHY_UNCOMPRESSED"}}
+
+var ecurves = []ecies.CurveType{ecies.NISTP256, ecies.NISTP384, ecies.NISTP521}
+var evariants = []ecies.Variant{ecies.VariantTink, ecies.VariantCrunchy, ecies.VariantNoPrefix}
+var saltLens = []int{0, 16, 40}
+
+func hdrLen(c *curveInfo, f string) int {
+	switch f {
+	case "C":
+		return c.bl + 1
+	case "L":
+		return 2 * c.bl
+	}
+	return 2*c.bl + 1
+}
+
+func runECIES(e *env, rng *hlib.Rng, ci, hi, fi, mi, si, vi, rounds int) {
+	o := e.o
+	c := curves[ci]
+	dm := &dems[mi]
+	f := efmts[fi]
+	salt := rng.Bytes(saltLens[si])
+	if len(salt) == 0 && rng.Bool() {
+		salt = nil
+	}
+	id := rng.KeyID()
+	if vi == 2 {
+		id = 0
+	}
+	suite := fmt.Sprintf("%s %s %s %s %s", c.name, ehashes[hi].name, f.code, dm.model, hlib.Tok(salt))
+	demParams := dm.params()
+	params, err := ecies.NewParameters(ecies.ParametersOpts{CurveType: ecurves[ci], HashType: ehashes[hi].id, NISTCurvePointFormat: f.id,
+		DEMParameters: demParams, Salt: salt, Variant: evariants[vi]})
+	if err != nil {
+		o.Violate("ecies.NewParameters(%s) failed: %v", suite, err)
+		return
+	}
+	path := pickPath(rng)
+	if vi == 2 && rng.Chance(30) {
+		path = "subtle"
+	}
+	perKey := func(p *ecies.PrivateKey) func() (tink.HybridEncrypt, tink.HybridDecrypt, error) {
+		return func() (tink.HybridEncrypt, tink.HybridDecrypt, error) {
+			pk, _ := p.PublicKey()
+			en, err := ecies.NewHybridEncrypt(pk.(*ecies.PublicKey), internalapi.Token{})
+			if err != nil {
+				return nil, nil, err
+			}
+			de, err := ecies.NewHybridDecrypt(p, internalapi.Token{})
+			return en, de, err
+		}
+	}
+	var priv *ecies.PrivateKey
+	var enc tink.HybridEncrypt
+	var dec tink.HybridDecrypt
+	dKind := "generated"
+	switch path {
+	case "generated":
+		h, gk, err := generate(params)
+		if err != nil {
+			o.Violate("key generation from parameters failed (%s): %v", suite, err)
+			return
+		}
+		priv = gk.(*ecies.PrivateKey)
+		id, _ = priv.IDRequirement()
+		if enc, dec, err = fromHandle(h); err != nil {
+			o.Violate("primitive construction failed (%s, %s): %v", suite, path, err)
+			return
+		}
+	default:
+		var d []byte
+		d, dKind = scalar(rng, c)
+		priv, err = ecies.NewPrivateKey(hlib.Secret(d), id, params)
+		if err != nil {
+			o.Violate("ecies.NewPrivateKey failed (%s): %v", suite, err)
+			return
+		}
+		if path == "subtle" {
+			// hybrid/subtle directly, with the DEM helper the key-level constructors use
+			helper, err := ecies.VerifNewDEMHelper(demParams)
+			if err != nil {
+				o.Violate("DEM helper (%s): %v", suite, err)
+				return
+			}
+			pub := pubOf(c, d)
+			en, err := hsubtle.NewECIESAEADHKDFHybridEncrypt(&hsubtle.ECPublicKey{Curve: c.ell, Point: hsubtle.ECPoint{
+				X: new(big.Int).SetBytes(pub[1 : 1+c.bl]), Y: new(big.Int).SetBytes(pub[1+c.bl:])}}, salt, ehashes[hi].name, f.subtle, helper)
+			if err != nil {
+				o.Violate("subtle encrypt constructor (%s): %v", suite, err)
+				return
+			}
+			de, err := hsubtle.NewECIESAEADHKDFHybridDecrypt(hsubtle.GetECPrivateKey(c.ell, d), salt, ehashes[hi].name, f.subtle, helper)
+			if err != nil {
+				o.Violate("subtle decrypt constructor (%s): %v", suite, err)
+				return
+			}
+			enc, dec = en, de
+		} else if enc, dec, err = parties(path, priv, perKey(priv)); err != nil {
+			o.Violate("primitive construction failed (%s, %s): %v", suite, path, err)
+			return
+		}
+	}
+	d := priv.PrivateKeyBytes().Data(insecuresecretdataaccess.Token{})
+	pk, _ := priv.PublicKey()
+	pub := pk.(*ecies.PublicKey).PublicKeyBytes()
+	dNeg := negScalar(c, d)
+	d2, _ := scalar(rng, c)
+	for bytes.Equal(d2, d) || bytes.Equal(d2, dNeg) { // n-d is the same ECIES decryption key, see negEquivalent
+		d2, _ = scalar(rng, c)
+	}
+	priv2, err := ecies.NewPrivateKey(hlib.Secret(d2), id, params)
+	if err != nil {
+		o.Violate("ecies.NewPrivateKey failed (%s): %v", suite, err)
+		return
+	}
+	enc2, dec2, err := perKey(priv2)()
+	if err != nil {
+		o.Violate("primitive construction failed (%s, other key): %v", suite, err)
+		return
+	}
+	privNeg, err := ecies.NewPrivateKey(hlib.Secret(dNeg), id, params)
+	if err != nil {
+		o.Violate("ecies.NewPrivateKey failed (%s, n-d): %v", suite, err)
+		return
+	}
+	_, decNeg, err := perKey(privNeg)()
+	if err != nil {
+		o.Violate("primitive construction failed (%s, n-d): %v", suite, err)
+		return
+	}
+	o.Count("ecies/curve/" + c.name)
+	o.Count("ecies/hash/" + ehashes[hi].name)
+	o.Count("ecies/format/" + f.code)
+	o.Count("ecies/dem/" + dm.name)
+	o.Count(fmt.Sprintf("ecies/salt/%d", saltLens[si]))
+	o.Count("ecies/variant/" + vcodes[vi])
+	o.Count("ecies/path/" + path)
+	o.Count("ecies/d/" + dKind)
+	preLen := 5
+	if vi == 2 {
+		preLen = 0
+	}
+	hl := hdrLen(c, f.code)
+	cfg := fmt.Sprintf("%s %s %d", suite, vcodes[vi], id)
+	s := &scheme{fam: "ecies", label: "ECIES " + cfg + " via " + path, costly: true, enc: enc, dec: dec, dec2: dec2, decNeg: decNeg, negEquivalent: true,
+		preLen: preLen, hdrLen: hl, ovh: dm.headIV + dm.tagLen,
+		bounds: func(n int) []int {
+			b := []int{preLen + hl + dm.headIV - 1, preLen + hl + dm.headIV}
+			if dm.tagLen > 0 {
+				b = append(b, n-dm.tagLen, n-dm.tagLen-1)
+			}
+			return b
+		},
+		decLine: func(who int, ct, info []byte) string {
+			x := d
+			if who == 1 {
+				x = d2
+			} else if who == 2 {
+				x = dNeg
+			}
+			return fmt.Sprintf("H eciesdec %s %s %s %s", cfg, hlib.Tok(x), hlib.Tok(ct), hlib.Tok(info))
+		},
+		askLine: func(rng *hlib.Rng, pt, info []byte) string {
+			eph, _ := scalar(rng, c)
+			rnd := rng.Bytes(dm.rndLen)
+			return fmt.Sprintf("H eciesenc %s %s %s %s %s %s", cfg, hlib.Tok(pub), hlib.Tok(eph), hlib.Tok(rnd), hlib.Tok(pt), hlib.Tok(info))
+		},
+	}
+	s.special = func(rng *hlib.Rng, ct, pt, info []byte) []hlib.Mut {
+		var ms []hlib.Mut
+		// a different valid KEM header (fresh ephemeral point) in front of the payload
+		eph, _ := scalar(rng, c)
+		m := append([]byte(nil), ct...)
+		copy(m[preLen:preLen+hl], encodePoint(c, f.code, pubOf(c, eph)))
+		ms = append(ms, hlib.Mut{Kind: "kem-other-valid", Data: m})
+		// -P: same DH x coordinate, different KEM bytes (they are part of the HKDF input)
+		if unc := decodeToUnc(c, f.code, ct[preLen:preLen+hl]); unc != nil {
+			m = append([]byte(nil), ct...)
+			copy(m[preLen:preLen+hl], encodePoint(c, f.code, negate(c, unc)))
+			ms = append(ms, hlib.Mut{Kind: "kem-negated-point", Data: m})
+		}
+		// the recipient's own public key as the KEM header
+		m = append([]byte(nil), ct...)
+		copy(m[preLen:preLen+hl], encodePoint(c, f.code, pub))
+		ms = append(ms, hlib.Mut{Kind: "kem-is-recipient-key", Data: m})
+		if f.code != "L" {
+			m = append([]byte(nil), ct...)
+			m[preLen] = byte(rng.Pick(0, 2, 3, 4, 5, 6, 7))
+			if m[preLen] != ct[preLen] {
+				ms = append(ms, hlib.Mut{Kind: "kem-format-byte", Data: m})
+			}
+		}
+		// x coordinate replaced by random bytes / by p (out of range)
+		m = append([]byte(nil), ct...)
+		xo := preLen + hl - c.bl
+		if f.code != "C" {
+			xo = preLen + hl - 2*c.bl
+		}
+		c.ell.Params().P.FillBytes(m[xo : xo+c.bl])
+		ms = append(ms, hlib.Mut{Kind: "kem-x-is-p", Data: m})
+		// the same point in another point format
+		for _, of := range []string{"U", "C", "L"} {
+			if of == f.code {
+				continue
+			}
+			if unc := decodeToUnc(c, f.code, ct[preLen:preLen+hl]); unc != nil {
+				m = append(append(append([]byte(nil), ct[:preLen]...), encodePoint(c, of, unc)...), ct[preLen+hl:]...)
+				ms = append(ms, hlib.Mut{Kind: "kem-other-format", Data: m})
+			}
+		}
+		if ct2, err := enc.Encrypt(pt, info); err == nil && len(ct2) == len(ct) {
+			m = append([]byte(nil), ct2...)
+			copy(m[preLen:preLen+hl], ct[preLen:preLen+hl])
+			ms = append(ms, hlib.Mut{Kind: "payload-other-valid", Data: m})
+		}
+		if ct3, err := enc2.Encrypt(pt, info); err == nil {
+			ms = append(ms, hlib.Mut{Kind: "for-other-recipient", Data: ct3})
+		}
+		return ms
+	}
+	for r := 0; r < rounds; r++ {
+		e.round(rng, s)
+	}
+}
+
+// unsupported records that the parameter sets hybrid/ecies admits at the parameters level but has
+// no primitive for stay that way (nothing to correspond with; the evidence says so).
+func unsupported(o *hlib.Out) {
+	xp, err := xchacha20poly1305.NewParameters(xchacha20poly1305.VariantNoPrefix)
+	if err == nil {
+		p, err := ecies.NewParameters(ecies.ParametersOpts{CurveType: ecies.NISTP256, HashType: ecies.SHA256, NISTCurvePointFormat: ecies.UncompressedPointFormat,
+			DEMParameters: xp, Variant: ecies.VariantNoPrefix})
+		if err == nil {
+			if _, _, err := generate(p); err != nil {
+				o.Count("ecies/not-covered/XChaCha20-Poly1305-DEM:no-key-generation")
+			} else if k, err := ecies.NewPrivateKey(hlib.Secret(append(make([]byte, 31), 1)), 0, p); err == nil {
+				if _, err := ecies.NewHybridDecrypt(k, internalapi.Token{}); err != nil {
+					o.Count("ecies/not-covered/XChaCha20-Poly1305-DEM:no-primitive")
+				} else {
+					o.Count("ecies/not-covered/XChaCha20-Poly1305-DEM:MODEL-HAS-NO-SUCH-DEM")
+				}
+			}
+		}
+	}
+	p, err := ecies.NewParameters(ecies.ParametersOpts{CurveType: ecies.X25519, HashType: ecies.SHA256, NISTCurvePointFormat: ecies.UnspecifiedPointFormat,
+		DEMParameters: dems[0].params(), Variant: ecies.VariantNoPrefix})
+	if err == nil {
+		if k, err := ecies.NewPrivateKey(hlib.Secret(bytes.Repeat([]byte{7}, 32)), 0, p); err == nil {
+			if _, err := ecies.NewHybridDecrypt(k, internalapi.Token{}); err != nil {
+				o.Count("ecies/not-covered/X25519-curve:no-primitive")
+			} else {
+				o.Count("ecies/not-covered/X25519-curve:MODEL-HAS-NO-SUCH-CURVE")
+			}
+		}
+	}
+}
+
+// ---------------------------------------------------------------- main
 
 func main() {
-	o := hlib.Open("c06")
+	o := hlib.Open("C06")
 	defer o.Close()
-	o.Emit("H hpkeenc X25519 SHA256 AES128GCM R 0 3948cfe0ad1ddb695d780e59077195da6c56506b027329794ab02bca80815c4d 52c4a758a802cd8b936eceea314432798d5baf2d7e9235dc084ab1b9cfa2f736 - -", "ok 37fda3567bdbd628e88668c3c8d7e97d1d1253b6d4ea6d44c150f741f1bf44319c1a9d6c1b6e5f1a8e6d1f0d7f3b5a11", false)
-	o.Emit("H xwingpub 00", "x", false)
+	tape = &detTape{seed: *hlib.FlagSeed, counts: map[int]int{}}
+	rand.Reader = tape
+	e := &env{o: o, mutProb: 25}
+	if hlib.Thorough() {
+		e.mutProb = 100
+	}
+	seed := *hlib.FlagSeed
+	unsupported(o)
+
+	// HPKE: every suite in every variant
+	suites := map[string]bool{}
+	caseNo := 0
+	for ki := range kems {
+		for di := range kdfs {
+			for ai := range haeads {
+				for vi := 0; vi < 3; vi++ {
+					caseNo++
+					tape.next()
+					o.Case()
+					rng := hlib.NewRng(seed, fmt.Sprintf("c06/hpke/%d", caseNo))
+					rounds := hlib.N(1, 4)
+					if strings.HasPrefix(kems[ki].name, "MLKEM") {
+						rounds = hlib.N(2, 6) // ML-KEM lines cost the model next to nothing
+					}
+					runHPKE(e, rng, ki, di, ai, vi, rounds)
+					suites[fmt.Sprintf("%d/%d/%d", ki, di, ai)] = true
+				}
+			}
+		}
+	}
+	o.Hist["hpke/distinct-suites"] = len(suites)
+
+	// ECIES: quick walks the (curve, hash, format, DEM) grid once with (salt, variant) cycling through
+	// all nine pairs; thorough walks the full grid including salts and variants.
+	combos := map[string]bool{}
+	off := int(hlib.NewRng(seed, "c06/ecies/off").Intn(9))
+	idx := 0
+	for ci := range curves {
+		for hi := range ehashes {
+			for fi := range efmts {
+				for mi := range dems {
+					var svs []int
+					if hlib.Thorough() {
+						svs = []int{0, 1, 2, 3, 4, 5, 6, 7, 8}
+					} else {
+						svs = []int{(idx*7 + off) % 9}
+					}
+					idx++
+					for _, sv := range svs {
+						for rep := 0; rep < *hlib.FlagScale; rep++ {
+							caseNo++
+							tape.next()
+							o.Case()
+							rng := hlib.NewRng(seed, fmt.Sprintf("c06/ecies/%d", caseNo))
+							runECIES(e, rng, ci, hi, fi, mi, sv%3, sv/3, 1)
+							combos[fmt.Sprintf("%d/%d/%d/%d/%d/%d", ci, hi, fi, mi, sv%3, sv/3)] = true
+						}
+					}
+				}
+			}
+		}
+	}
+	o.Hist["ecies/distinct-parameter-sets"] = len(combos)
 }
